@@ -59,12 +59,16 @@ def find_by_shape(facts, n_f64_args, ref_pair_fn):
     for b in facts.live:
         if b.kind == "Closure" or b.inputs != ["f64"] * n_f64_args or b.output != TF:
             continue
+        before = set(vg.COVERED)
         try:
             got, t = nf_pair(facts, b)
         except vg.Unsupported:
-            continue
+            got = None
         if got and got[0] is exp[0] and got[1] is exp[1]:
             out.append(b)
+        else:
+            # a candidate that does not play the role is not part of what the calling rule analysed
+            vg.COVERED.intersection_update(before)
     return out
 
 def eft_table(facts):
